@@ -254,48 +254,76 @@ end DendroModel.C10.Aux
 namespace DendroModel.C10.Aux
 open DendroModel DendroModel.C10
 
-/-! ### the scope of the case folding -/
+/-! ### the case folding on ASCII / Latin-1 is the closed form -/
 
-/-- a label the model's case folding is meant for: every character is ASCII or Latin-1 -/
+/-- the closed form of `str.lower` on ASCII and Latin-1: `A`–`Z` and `À`–`Þ` (without `×`) move up by 32 -/
+def latin1Lower (c : Char) : Char :=
+  let n := c.toNat
+  if 65 ≤ n ∧ n ≤ 90 then Char.ofNat (n + 32)
+  else if 192 ≤ n ∧ n ≤ 222 ∧ n ≠ 215 then Char.ofNat (n + 32)
+  else c
+
+/-- a label made of ASCII and Latin-1 characters only: there `str.lower` is the closed form `latin1Lower`, character by character -/
 def InScope (l : String) : Prop := ∀ c ∈ l.toList, c.toNat < 256
 
-theorem lowerChar_out_of_scope (c : Char) (h : 256 ≤ c.toNat) : lowerChar c = c := by
-  unfold lowerChar
-  simp only
-  rw [if_neg (by omega), if_neg (by omega)]
+set_option maxRecDepth 100000 in
+theorem lowerCp_latin1 : ∀ n : Fin 256, lowerCp n.val = [(latin1Lower (Char.ofNat n.val)).toNat] := by decide
 
 set_option maxRecDepth 100000 in
-/-- on Latin-1 the folding is the table: `A`–`Z` and `À`–`Þ` (without `×`) move up by 32, everything else stays -/
-theorem lowerChar_latin1 : ∀ n : Fin 256, lowerChar (Char.ofNat n) =
-    Char.ofNat (if (65 ≤ n.val ∧ n.val ≤ 90) ∨ (192 ≤ n.val ∧ n.val ≤ 222 ∧ n.val ≠ 215) then n.val + 32 else n.val) := by
-  decide
+theorem latin1Lower_lt : ∀ n : Fin 256, (latin1Lower (Char.ofNat n.val)).toNat < 256 := by decide
 
 set_option maxRecDepth 100000 in
-theorem lowerChar_idem_latin1 : ∀ n : Fin 256, lowerChar (lowerChar (Char.ofNat n)) = lowerChar (Char.ofNat n) := by
+theorem latin1Lower_idem_fin : ∀ n : Fin 256, latin1Lower (latin1Lower (Char.ofNat n.val)) = latin1Lower (Char.ofNat n.val) := by
   decide
 
-theorem lowerChar_idem (c : Char) : lowerChar (lowerChar c) = lowerChar c := by
-  by_cases h : c.toNat < 256
-  · have := lowerChar_idem_latin1 ⟨c.toNat, h⟩
-    simpa [Char.ofNat_toNat] using this
-  · rw [lowerChar_out_of_scope c (by omega), lowerChar_out_of_scope c (by omega)]
+theorem lowerGo_latin1 : ∀ (cs pre : List Nat), (∀ c ∈ cs, c < 256) →
+    lowerGo pre cs = cs.map (fun n => (latin1Lower (Char.ofNat n)).toNat) := by
+  intro cs
+  induction cs with
+  | nil => intro _ _; rfl
+  | cons c rest ih =>
+    intro pre h
+    have hc : c < 256 := h c (by simp)
+    have hne : c ≠ C10Lower.capitalSigma := by
+      have : C10Lower.capitalSigma = 931 := rfl
+      omega
+    unfold lowerGo
+    rw [if_neg hne, ih (c :: pre) (fun x hx => h x (by simp [hx])), lowerCp_latin1 ⟨c, hc⟩]
+    rfl
 
-theorem pyLower_toList (l : String) : (pyLower l).toList = l.toList.map lowerChar := by
-  simp [pyLower]
-
-theorem pyLower_idem (l : String) : pyLower (pyLower l) = pyLower l := by
-  apply String.toList_inj.1
-  rw [pyLower_toList, pyLower_toList, List.map_map]
+theorem pyLower_toList_latin1 (l : String) (h : InScope l) : (pyLower l).toList = l.toList.map latin1Lower := by
+  unfold pyLower
+  rw [String.toList_ofList, lowerGo_latin1 _ [] (by
+    intro c hc
+    obtain ⟨x, hx, rfl⟩ := List.mem_map.1 hc
+    exact h x hx)]
+  rw [List.map_map, List.map_map]
   apply List.map_congr_left
   intro c _
-  exact lowerChar_idem c
+  simp [Char.ofNat_toNat]
 
-theorem pyLower_out_of_scope (l : String) (h : ∀ c ∈ l.toList, 256 ≤ c.toNat) : pyLower l = l := by
+theorem inScope_pyLower (l : String) (h : InScope l) : InScope (pyLower l) := by
+  intro c hc
+  rw [pyLower_toList_latin1 l h] at hc
+  obtain ⟨x, hx, rfl⟩ := List.mem_map.1 hc
+  have := latin1Lower_lt ⟨x.toNat, h x hx⟩
+  simpa [Char.ofNat_toNat] using this
+
+theorem pyLower_idem_latin1 (l : String) (h : InScope l) : pyLower (pyLower l) = pyLower l := by
   apply String.toList_inj.1
-  rw [pyLower_toList]
-  conv => rhs; rw [← List.map_id l.toList]
+  rw [pyLower_toList_latin1 _ (inScope_pyLower l h), pyLower_toList_latin1 l h, List.map_map]
   apply List.map_congr_left
   intro c hc
-  exact lowerChar_out_of_scope c (h c hc)
+  have := latin1Lower_idem_fin ⟨c.toNat, h c hc⟩
+  simpa [Char.ofNat_toNat] using this
+
+end DendroModel.C10.Aux
+
+namespace DendroModel.C10.Aux
+open DendroModel DendroModel.C10
+
+set_option maxRecDepth 100000 in
+theorem lowerCp_latin1_table : ∀ n : Fin 256, lowerCp n.val =
+    [if (65 ≤ n.val ∧ n.val ≤ 90) ∨ (192 ≤ n.val ∧ n.val ≤ 222 ∧ n.val ≠ 215) then n.val + 32 else n.val] := by decide
 
 end DendroModel.C10.Aux
